@@ -177,6 +177,20 @@ func (e *Extractor) ensureReader() error {
 	}
 }
 
+// ensurePDFReader opens the reader like ensureReader and additionally checks
+// that the document is a PDF. The fragment- and layout-level operations work on
+// the PDF reader only; for the other formats there is no such reader, and using
+// it would dereference nil.
+func (e *Extractor) ensurePDFReader() error {
+	if err := e.ensureReader(); err != nil {
+		return err
+	}
+	if e.format != format.PDF || e.reader == nil {
+		return fmt.Errorf("operation is only supported for PDF documents (format is %s)", e.format)
+	}
+	return nil
+}
+
 // Close releases resources associated with the Extractor.
 // It is safe to call Close multiple times.
 func (e *Extractor) Close() error {
@@ -359,7 +373,7 @@ func (e *Extractor) IsCharacterLevel() (bool, error) {
 		return false, e.err
 	}
 
-	if err := e.ensureReader(); err != nil {
+	if err := e.ensurePDFReader(); err != nil {
 		return false, err
 	}
 
@@ -390,7 +404,7 @@ func (e *Extractor) IsMultiColumn() (bool, error) {
 		return false, e.err
 	}
 
-	if err := e.ensureReader(); err != nil {
+	if err := e.ensurePDFReader(); err != nil {
 		return false, err
 	}
 
@@ -824,7 +838,7 @@ func (e *Extractor) Fragments() ([]text.TextFragment, []Warning, error) {
 		return nil, nil, e.err
 	}
 
-	if err := e.ensureReader(); err != nil {
+	if err := e.ensurePDFReader(); err != nil {
 		return nil, nil, err
 	}
 	defer e.Close()
@@ -916,7 +930,7 @@ func (e *Extractor) Lines() ([]layout.Line, error) {
 		return nil, e.err
 	}
 
-	if err := e.ensureReader(); err != nil {
+	if err := e.ensurePDFReader(); err != nil {
 		return nil, err
 	}
 	defer e.Close()
@@ -996,7 +1010,7 @@ func (e *Extractor) Paragraphs() ([]layout.Paragraph, error) {
 		return nil, e.err
 	}
 
-	if err := e.ensureReader(); err != nil {
+	if err := e.ensurePDFReader(); err != nil {
 		return nil, err
 	}
 	defer e.Close()
@@ -1077,7 +1091,7 @@ func (e *Extractor) ReadingOrder() (*layout.ReadingOrderResult, error) {
 		return nil, e.err
 	}
 
-	if err := e.ensureReader(); err != nil {
+	if err := e.ensurePDFReader(); err != nil {
 		return nil, err
 	}
 	defer e.Close()
@@ -1164,7 +1178,7 @@ func (e *Extractor) Analyze() (*layout.AnalysisResult, error) {
 		return nil, e.err
 	}
 
-	if err := e.ensureReader(); err != nil {
+	if err := e.ensurePDFReader(); err != nil {
 		return nil, err
 	}
 	defer e.Close()
@@ -1253,7 +1267,7 @@ func (e *Extractor) Headings() ([]layout.Heading, error) {
 		return nil, e.err
 	}
 
-	if err := e.ensureReader(); err != nil {
+	if err := e.ensurePDFReader(); err != nil {
 		return nil, err
 	}
 	defer e.Close()
@@ -1321,7 +1335,7 @@ func (e *Extractor) Lists() ([]layout.List, error) {
 		return nil, e.err
 	}
 
-	if err := e.ensureReader(); err != nil {
+	if err := e.ensurePDFReader(); err != nil {
 		return nil, err
 	}
 	defer e.Close()
@@ -1388,7 +1402,7 @@ func (e *Extractor) Blocks() ([]layout.Block, error) {
 		return nil, e.err
 	}
 
-	if err := e.ensureReader(); err != nil {
+	if err := e.ensurePDFReader(); err != nil {
 		return nil, err
 	}
 	defer e.Close()
